@@ -325,6 +325,8 @@ RECURSIVE ApplyAll(_, _, _, _)
 ApplyAll(s, d, rp, rss) == IF rss = <<>> THEN rp ELSE ApplyAll(s, d, ApplyResp(s, d, rp, Head(rss)), Tail(rss))
 
 ExpectedFailure(s, e, k, rss) ==
+  \* C05: an injected storage fault / lost response that fired
+  \/ (Has(e, "fault") /\ e.fault # "" /\ e.fired)
   \* a stale (pre-compaction) replica is told to re-attach: ErrEpochMismatch
   \/ (\E i \in DOMAIN rss : ~rss[i].ok /\ s.rep[k].has /\ s.rep[k].epoch # s.epoch[k[2]])
   \/ (s.rep[k].has /\ s.rep[k].epoch # s.epoch[k[2]] /\ e.ev \in {"Sync"})
